@@ -9,6 +9,7 @@ from collections import deque
 from typing import TYPE_CHECKING
 from typing import Deque
 from typing import Iterable
+from typing import List
 from typing import Tuple
 
 from .exceptions import JSONPathRecursionError
@@ -80,21 +81,31 @@ class JSONPathRecursiveDescentSegment(JSONPathSegment):
 
     def _visit(self, node: JSONPathNode, depth: int = 1) -> Iterable[JSONPathNode]:
         """Depth-first, pre-order node traversal."""
-        if depth > self.env.max_recursion_depth:
-            raise JSONPathRecursionError("recursion limit exceeded", token=self.token)
+        # An explicit stack rather than recursion, so the configured limit is
+        # what bounds the traversal, not the interpreter's stack.
+        stack: List[Tuple[JSONPathNode, int]] = [(node, depth)]
 
-        yield node
+        while stack:
+            _node, _depth = stack.pop()
 
-        if isinstance(node.value, dict):
-            for name, val in node.value.items():
-                if isinstance(val, (dict, list)):
-                    _node = node.new_child(val, name)
-                    yield from self._visit(_node, depth + 1)
-        elif isinstance(node.value, list):
-            for i, element in enumerate(node.value):
-                if isinstance(element, (dict, list)):
-                    _node = node.new_child(element, i)
-                    yield from self._visit(_node, depth + 1)
+            if _depth > self.env.max_recursion_depth:
+                raise JSONPathRecursionError(
+                    "recursion limit exceeded", token=self.token
+                )
+
+            yield _node
+
+            children: List[Tuple[JSONPathNode, int]] = []
+            if isinstance(_node.value, dict):
+                for name, val in _node.value.items():
+                    if isinstance(val, (dict, list)):
+                        children.append((_node.new_child(val, name), _depth + 1))
+            elif isinstance(_node.value, list):
+                for i, element in enumerate(_node.value):
+                    if isinstance(element, (dict, list)):
+                        children.append((_node.new_child(element, i), _depth + 1))
+
+            stack.extend(reversed(children))
 
     def _nondeterministic_visit(
         self,
